@@ -59,8 +59,10 @@ def check(run):
             raise Inconclusive("DiffMergeMC sanity configuration %s was not rejected: the model is vacuous" % cfg)
     t1, _ = run.drive("sync", name="sync-hist", extra=["-what", "hist"])
     t2, _ = run.drive("sync", name="sync-pairs")
+    # metadata-only transfers notify too: each selected entry / needed ancestor exactly once
+    t3, _ = run.drive("sync", name="sync-metasmall", extra=["-what", "metasmall"])
     fails = []
-    for fam_extra, trace in ((["-what", "hist"], t1), (None, t2)):
+    for fam_extra, trace in ((["-what", "hist"], t1), (None, t2), (["-what", "metasmall"], t3)):
         tr_all = run.tlc_trace("SyncTrace", trace)
         if syncfam.harness_failures(tr_all):
             from vlib import Inconclusive
@@ -79,7 +81,11 @@ def _sig(evs, clauses):
 
 def replay(run, path):
     run.build()
-    t, _ = run.drive("sync", replay=path)
+    import json
+    d = json.load(open(path))
+    ev0 = (d.get("events") or [d])[0]
+    extra = ["-what", "metasmall"] if ev0.get("metaOnly") else (["-what", "hist"] if "step" in ev0 else None)
+    t, _ = run.drive("sync", replay=path, extra=extra)
     tr = syncfam.filter_prefix(run.tlc_trace("SyncTrace", t, shards=1), {"C05"})
     fails = syncfam.confirm_by_replay_prefixed(run, "sync", "SyncTrace", tr, {"C05"}, _sig, syncfam.text_default, None)
     return finish(run, "model_checking", fails, assumptions=ASSUME)
